@@ -509,16 +509,22 @@ func (p *c14) Run(w *lib.Worker, idx int, r *lib.Rand) lib.Case {
 		snapArgs = []any{data}
 		call = func() any { return validate.ReadOnly(ctx, "p", "body", data) }
 	default: // FormatOf
-		formats := []string{"date", "uuid", "email", "date-time", "ipv4", "hostname", "nope", "", "Date", "int32", "password", "byte"}
+		formats := []string{"date", "uuid", "email", "date-time", "ipv4", "hostname", "nope", "", "Date", "int32", "password", "byte", "x-even", "x-caps", "hexcolor"}
 		f := formats[r.Intn(len(formats))]
 		s := c14Strings[r.Intn(len(c14Strings))]
-		var reg strfmt.Registry
-		if r.Bool() {
-			reg = strfmt.Default
+		// nil registry (the library falls back to strfmt.Default), strfmt.Default itself, or a caller-supplied
+		// registry which disagrees with it: "follows the registry" means the one handed in
+		var reg, judge strfmt.Registry = nil, strfmt.Default
+		regName := "nil"
+		switch r.Intn(3) {
+		case 1:
+			reg, regName = strfmt.Default, "strfmt.Default"
+		case 2:
+			reg, judge, regName = altRegistry(), altRegistry(), "alternative"
 		}
-		render = fmt.Sprintf("FormatOf(%q, %q, registry nil=%v)", f, s, reg == nil)
-		want = strfmt.Default.ContainsName(f) && strfmt.Default.Validates(f, s)
-		nontrivial = !strfmt.Default.ContainsName(f) || reg == nil
+		render = fmt.Sprintf("FormatOf(%q, %q, registry %s)", f, s, regName)
+		want = judge.ContainsName(f) && judge.Validates(f, s)
+		nontrivial = !judge.ContainsName(f) || reg != strfmt.Default
 		call = func() any { return validate.FormatOf("p", "body", f, s, reg) }
 	}
 
